@@ -313,7 +313,7 @@ func main() {
 		w.Extra["exhaustive_scope"] = fmt.Sprintf("inject: all %d sequences of %d steps over a %d-step alphabet (frames of every kind for established/backlogged/unknown/zero identifiers, local open/accept/read/close) after a 5-step prefix", count, depth, len(alphabet))
 		nInject := 700
 		if cfg.Thorough() {
-			nInject = 40000
+			nInject = 20000
 		}
 		for i := 0; i < nInject; i++ {
 			addInject(genInject(r), "random")
@@ -324,7 +324,7 @@ func main() {
 
 	nTrace := 300
 	if cfg.Thorough() {
-		nTrace = 20000
+		nTrace = 5000
 	}
 	if *prop == "C24" && !cfg.Thorough() {
 		nTrace = 220
